@@ -17,24 +17,39 @@ Proof.
   rewrite Forall_forall in *. intros k Hk. apply in_map_iff in Hk. destruct Hk as (x & <- & Hx). auto.
 Qed.
 
-Section WithSorts.
+Definition sorted_entries_with (sort_e : list sentry -> list sentry) (sort_i : list N -> list N) (e : entries) : entries :=
+  match e with ENone => ENone | EIds l => EIds (sort_i l) | EFull l => EFull (sort_e l) end.
+(* presence, all modes and types at once *)
+Definition retains (m : imode) (t : blob_type) : bool :=
+  match m, t with OnlyTrees, Data => false | _, _ => true end.
+
+(* Generic in the build (psz/sz/fits) and the loader (ld): see ProofsCollect.Gen. *)
+Section Generic.
+  Variable psz : ipack -> option N.
+  Variable sz : ipack -> N.
+  Variable fits : ipack -> bool.
+  Hypothesis psz_sz : forall p s, psz p = Some s -> s = sz p.
+  Hypothesis psz_fits : forall p, fits p = true <-> exists s, psz p = Some s.
+  Variable ld : ifile -> list ipack.
   Variable sort_e : list sentry -> list sentry.
   Variable sort_i : list N -> list N.
   Hypothesis sort_e_ok : sort_ok e_id sort_e.
   Hypothesis sort_i_ok : sort_ok (fun x => x) sort_i.
+  Notation src files := (flat_map ld files).
+  Notation index_of_g := (index_of_gen psz ld sort_e sort_i).
+  Collection base := psz sz fits psz_sz psz_fits ld sort_e sort_i.
 
-  Definition sorted_entries (e : entries) : entries :=
-    match e with ENone => ENone | EIds l => EIds (sort_i l) | EFull l => EFull (sort_e l) end.
+  Notation sorted_entries := (sorted_entries_with sort_e sort_i).
 
-  Lemma index_char : forall m files ix, index_of_with sort_e sort_i m files = Some ix ->
-    forall t, let qs := packs_of_type t (unmarked files) in
+  Lemma index_char : forall m files ix, index_of_g m files = Some ix ->
+    forall t, let qs := packs_of_type t (src files) in
       i_packs (bget ix t) = map pid qs /\
       i_entries (bget ix t) = sorted_entries (mode_entries m t qs) /\
-      i_total (bget ix t) = sum_sizes qs.
-  Proof.
-    intros m files ix H t qs. unfold index_of_with in H.
-    destruct (collect m files) as [c|] eqn:Ec; [|discriminate]. inv H.
-    destruct (collect_char _ _ _ Ec t) as (I1 & I2 & I3). fold qs in I1, I2, I3.
+      i_total (bget ix t) = sum_sizes_by sz qs.
+  Proof using base.
+    intros m files ix H t qs. unfold index_of_gen in H.
+    destruct (collect_gen psz ld m files) as [c|] eqn:Ec; [|discriminate]. inv H.
+    destruct (collect_char psz sz fits psz_sz psz_fits ld _ _ _ Ec t) as (I1 & I2 & I3). fold qs in I1, I2, I3.
     unfold into_index_with.
     assert (G : forall A B (f : blob_type -> A -> B) mm, bget (bmap f mm) t = f t (bget mm t))
       by (intros; destruct t; reflexivity).
@@ -42,23 +57,24 @@ Section WithSorts.
     rewrite map_map. reflexivity.
   Qed.
 
-  Lemma index_defined : forall m files, no_overflow files = true ->
-    exists ix, index_of_with sort_e sort_i m files = Some ix.
-  Proof.
-    intros m files H. destruct (collect_defined m files H) as (c & Hc).
-    unfold index_of_with. rewrite Hc. eexists; reflexivity.
+  Lemma index_defined_iff_g : forall m files,
+    (exists ix, index_of_g m files = Some ix) <->
+    (forallb fits (src files) = true /\ forall t, N.of_nat (length (packs_of_type t (src files))) <= U32).
+  Proof using base.
+    intros m files. rewrite <- (collect_defined_iff psz sz fits psz_sz psz_fits ld m files). unfold index_of_gen.
+    destruct (collect_gen psz ld m files); split; intros (x & Hx); try discriminate; eexists; reflexivity.
   Qed.
 
   Lemma search_entries : forall es id,
     is_some (bsearch (map e_id (sort_e es)) id) = true <-> In id (map e_id es).
-  Proof.
+  Proof using sort_e sort_e_ok.
     intros es id. destruct (sort_e_ok es) as (Hp & Hs).
     rewrite bsearch_is_some_iff by (apply sorted_keys_mono; assumption).
     split; apply Permutation_in; [symmetry|]; apply Permutation_map; assumption.
   Qed.
 
   Lemma search_ids : forall l id, is_some (bsearch (sort_i l) id) = true <-> In id l.
-  Proof.
+  Proof using sort_i sort_i_ok.
     intros l id. destruct (sort_i_ok l) as (Hp & Hs).
     assert (Hm : mono (sort_i l)).
     { rewrite <- (map_id (sort_i l)). apply sorted_keys_mono with (key := fun x => x). assumption. }
@@ -66,16 +82,12 @@ Section WithSorts.
     split; apply Permutation_in; [symmetry|]; assumption.
   Qed.
 
-  (* presence, all modes and types at once *)
-  Definition retains (m : imode) (t : blob_type) : bool :=
-    match m, t with OnlyTrees, Data => false | _, _ => true end.
-
-  Lemma has_char : forall m files ix, index_of_with sort_e sort_i m files = Some ix ->
-    forall t id, has ix t id = retains m t && listed files t id.
-  Proof.
+  Lemma has_char : forall m files ix, index_of_g m files = Some ix ->
+    forall t id, has ix t id = retains m t && listed_in (src files) t id.
+  Proof using base sort_e_ok sort_i_ok.
     intros m files ix H t id. destruct (index_char _ _ _ H t) as (_ & I2 & _).
-    unfold has. rewrite I2. unfold listed.
-    set (qs := packs_of_type t (unmarked files)).
+    unfold has. rewrite I2. unfold listed_in.
+    set (qs := packs_of_type t (src files)).
     apply Bool.eq_iff_eq_true.
     destruct t, m; cbn [mode_entries sorted_entries retains andb];
       try (rewrite search_entries, entries_of_ids, in_ids_of; reflexivity);
@@ -83,18 +95,15 @@ Section WithSorts.
     split; discriminate.
   Qed.
 
-  Lemma has_iff_listed_lemma : forall files ix, index_of_with sort_e sort_i Full files = Some ix ->
-    forall t id, has ix t id = true <-> listed files t id = true.
-  Proof. intros files ix H t id. rewrite (has_char _ _ _ H). destruct t; reflexivity. Qed.
 
   (* get_id *)
-  Lemma get_id_listing_lemma : forall m files ix, index_of_with sort_e sort_i m files = Some ix ->
+  Lemma get_id_listing_lemma : forall m files ix, index_of_g m files = Some ix ->
     forall t id t' pk lc, get_id ix t id = Some (t', pk, lc) ->
-      t' = t /\ In (pk, lc) (listings files t id).
-  Proof.
+      t' = t /\ In (pk, lc) (listings_in (src files) t id).
+  Proof using base sort_e_ok.
     intros m files ix H t id t' pk lc G. destruct (index_char _ _ _ H t) as (I1 & I2 & _).
-    unfold get_id in G. rewrite I1, I2 in G. unfold listings.
-    set (qs := packs_of_type t (unmarked files)) in *.
+    unfold get_id in G. rewrite I1, I2 in G. unfold listings_in.
+    set (qs := packs_of_type t (src files)) in *.
     destruct (sorted_entries (mode_entries m t qs)) as [| |srt] eqn:Es; try discriminate.
     assert (exists es, srt = sort_e es /\ es = entries_of 0 qs) as (es & -> & Hes).
     { destruct t, m; cbn in Es; inv Es; eauto. }
@@ -117,13 +126,13 @@ Section WithSorts.
     apply filter_In. split; [assumption|lia].
   Qed.
 
-  Lemma get_id_some_lemma : forall m files ix, index_of_with sort_e sort_i m files = Some ix ->
+  Lemma get_id_some_lemma : forall m files ix, index_of_g m files = Some ix ->
     forall t id, is_some (get_id ix t id) =
                  match m, t with Full, _ => has ix t id | _, Tree => has ix t id | _, Data => false end.
-  Proof.
+  Proof using base sort_e_ok.
     intros m files ix H t id. destruct (index_char _ _ _ H t) as (I1 & I2 & _).
     unfold get_id, has. rewrite I1, I2.
-    set (qs := packs_of_type t (unmarked files)) in *.
+    set (qs := packs_of_type t (src files)) in *.
     assert (Full_case : forall es, es = entries_of 0 qs ->
       is_some match bsearch (map e_id (sort_e es)) id with
               | Some i => match nth_error (sort_e es) i with
@@ -143,7 +152,74 @@ Section WithSorts.
     destruct t, m; cbn [mode_entries sorted_entries]; try reflexivity; apply Full_case; reflexivity.
   Qed.
 
-  Lemma total_size_lemma : forall m files ix, index_of_with sort_e sort_i m files = Some ix ->
+  Lemma total_size_lemma : forall m files ix, index_of_g m files = Some ix ->
+    forall t, total_size ix t = sum_sizes_by sz (packs_of_type t (src files)).
+  Proof using base. intros m files ix H t. destruct (index_char _ _ _ H t) as (_ & _ & I3). exact I3. Qed.
+End Generic.
+
+(* ------------------------------------------------------------------ the checked build, GlobalIndex loader *)
+Section WithSorts.
+  Variable sort_e : list sentry -> list sentry.
+  Variable sort_i : list N -> list N.
+  Hypothesis sort_e_ok : sort_ok e_id sort_e.
+  Hypothesis sort_i_ok : sort_ok (fun x => x) sort_i.
+  Notation sorted_entries := (sorted_entries_with sort_e sort_i).
+
+  Lemma index_char_dbg : forall m files ix, index_of_with sort_e sort_i m files = Some ix ->
+    forall t, let qs := packs_of_type t (unmarked files) in
+      i_packs (bget ix t) = map pid qs /\
+      i_entries (bget ix t) = sorted_entries (mode_entries m t qs) /\
+      i_total (bget ix t) = sum_sizes qs.
+  Proof.
+    intros m files ix H t. rewrite <- loaded_is_unmarked.
+    exact (index_char pack_size size_spec size_fits pack_size_is_spec pack_size_fits_iff loaded_packs sort_e sort_i m files ix H t).
+  Qed.
+
+  Lemma index_defined_iff_lemma : forall m files,
+    (exists ix, index_of_with sort_e sort_i m files = Some ix) <-> no_overflow files = true.
+  Proof.
+    intros m files. unfold index_of_with.
+    rewrite (index_defined_iff_g pack_size size_spec size_fits pack_size_is_spec pack_size_fits_iff loaded_packs sort_e sort_i m files).
+    rewrite loaded_is_unmarked. unfold no_overflow, no_overflow_in, count_fits. split.
+    - intros (Hf & Hl). rewrite Hf. pose proof (Hl Tree). pose proof (Hl Data). lia.
+    - intro H. apply andb_prop in H. destruct H as (H & H3). apply andb_prop in H. destruct H as (H1 & H2).
+      split; [assumption|]. intros []; lia.
+  Qed.
+
+  Lemma index_defined : forall m files, no_overflow files = true ->
+    exists ix, index_of_with sort_e sort_i m files = Some ix.
+  Proof. intros m files H. apply index_defined_iff_lemma. assumption. Qed.
+
+  Lemma has_char_dbg : forall m files ix, index_of_with sort_e sort_i m files = Some ix ->
+    forall t id, has ix t id = retains m t && listed files t id.
+  Proof.
+    intros m files ix H t id. unfold listed. rewrite <- loaded_is_unmarked.
+    exact (has_char pack_size size_spec size_fits pack_size_is_spec pack_size_fits_iff loaded_packs sort_e sort_i sort_e_ok sort_i_ok m files ix H t id).
+  Qed.
+
+  Lemma has_iff_listed_lemma : forall files ix, index_of_with sort_e sort_i Full files = Some ix ->
+    forall t id, has ix t id = true <-> listed files t id = true.
+  Proof. intros files ix H t id. rewrite (has_char_dbg _ _ _ H). destruct t; reflexivity. Qed.
+
+  Lemma get_id_listing_dbg : forall m files ix, index_of_with sort_e sort_i m files = Some ix ->
+    forall t id t' pk lc, get_id ix t id = Some (t', pk, lc) ->
+      t' = t /\ In (pk, lc) (listings files t id).
+  Proof.
+    intros m files ix H t id t' pk lc G. unfold listings. rewrite <- loaded_is_unmarked.
+    exact (get_id_listing_lemma pack_size size_spec size_fits pack_size_is_spec pack_size_fits_iff loaded_packs sort_e sort_i sort_e_ok m files ix H t id t' pk lc G).
+  Qed.
+
+  Lemma get_id_some_dbg : forall m files ix, index_of_with sort_e sort_i m files = Some ix ->
+    forall t id, is_some (get_id ix t id) =
+                 match m, t with Full, _ => has ix t id | _, Tree => has ix t id | _, Data => false end.
+  Proof.
+    exact (get_id_some_lemma pack_size size_spec size_fits pack_size_is_spec pack_size_fits_iff loaded_packs sort_e sort_i sort_e_ok).
+  Qed.
+
+  Lemma total_size_dbg : forall m files ix, index_of_with sort_e sort_i m files = Some ix ->
     forall t, total_size ix t = total_spec files t.
-  Proof. intros m files ix H t. destruct (index_char _ _ _ H t) as (_ & _ & I3). exact I3. Qed.
+  Proof.
+    intros m files ix H t. unfold total_spec, total_in. rewrite <- loaded_is_unmarked.
+    exact (total_size_lemma pack_size size_spec size_fits pack_size_is_spec pack_size_fits_iff loaded_packs sort_e sort_i m files ix H t).
+  Qed.
 End WithSorts.
